@@ -153,6 +153,7 @@ func checkC11(w *World, r *Report) {
 	checkChainFlattening(w, r)
 	checkReadsFollowChain(w, r)
 	checkNoWritesUpTheChain(w, r)
+	checkParsedBindingsKept(w, r)
 
 	// ---- R11.2 / R11.3 in IncludeNode.Render and its parts (unexported helpers with that one call
 	// site; flags may travel in a local struct of options and be tested by predicate helpers)
@@ -1124,7 +1125,6 @@ func checkReadsFollowChain(w *World, r *Report) {
 	r.floor("by-name reads of a context's variable map", len(sites), 2)
 }
 
-
 // decidesOrYields: the result of the lookup reaches a branch or a return of its own function
 // (through extraction, negation, comparison, interface conversion, phis) — as opposed to being
 // put away in a closure or a record.
@@ -1220,4 +1220,47 @@ func checkNoWritesUpTheChain(w *World, r *Report) {
 	}
 	r.ok("R11.9", "(package)", "variable maps are written through their own context only", "-", fmt.Sprintf("%d stores/deletes on RenderContext.context, none through a .parent link", n), true)
 	r.floor("writes to a context's variable map", n, 2)
+}
+
+// checkParsedBindingsKept — R11.11: what the template writes after `with` is what the node
+// carries.  In the parser, a table of named expressions (map[string]Node: the variables of an
+// include, of an embed, of a hash) only ever grows: entries are added as they are parsed and none
+// is deleted or replaced afterwards.  Removing a "redundant" entry (`'title': title`) takes a
+// binding away from the included template's own scope, where a layout it extends and the
+// precedence over globals look for it.
+func checkParsedBindingsKept(w *World, r *Report) {
+	reach := w.parseReachable()
+	isExprTable := func(t types.Type) bool {
+		m, ok := t.Underlying().(*types.Map)
+		if !ok {
+			return false
+		}
+		return isNamed(m.Elem(), twigPath, "Node") || w.implementsNode(m.Elem())
+	}
+	n := 0
+	for _, fn := range w.pkgFuncs() {
+		if !reach[fn] {
+			continue
+		}
+		instrsOf(fn, func(in ssa.Instruction) {
+			switch x := in.(type) {
+			case *ssa.MapUpdate:
+				if isExprTable(x.Map.Type()) {
+					n++
+					r.ok("R11.11", ssaName(fn), "entry added to a table of parsed expressions", w.posOf(in.Pos()), "tables of parsed expressions only grow", false)
+				}
+			case ssa.CallInstruction:
+				cc := x.Common()
+				if b, ok := cc.Value.(*ssa.Builtin); ok && b.Name() == "delete" && len(cc.Args) > 0 && isExprTable(cc.Args[0].Type()) {
+					n++
+					r.bad("R11.11", ssaName(fn), "entry removed from a table of parsed expressions", w.posOf(in.Pos()), "the parser deletes a binding the template wrote: the included template's own scope no longer holds it, so a layout it extends renders without it and a global of the same name wins over the includer's value")
+				}
+				if g := cc.StaticCallee(); g != nil && (g.String() == "maps.DeleteFunc" || g.String() == "clear") && len(cc.Args) > 0 && isExprTable(cc.Args[0].Type()) {
+					n++
+					r.bad("R11.11", ssaName(fn), "entries removed from a table of parsed expressions", w.posOf(in.Pos()), "the parser deletes bindings the template wrote")
+				}
+			}
+		})
+	}
+	r.floor("updates of tables of parsed expressions in the parser", n, 1)
 }
